@@ -28,12 +28,14 @@ RULE = ("items generated from the seed; 3 of 4 are one pricing on a fresh engine
         "pairwise distinct path values; plus 30 (thorough 60) single pricings WITH 1-4 controls (same control families, collinear sets included) "
         "on a fresh engine with nb_of_processes cycling through 2, 3, None (Pool(processes=None): one worker per CPU; half of these with "
         "70-130 paths so that map_async hands out chunks) and 1 (control group), spot statistics on, 3-40 (130) pairwise distinct paths; non-trivial = at least 3 paths and (d >= 2 or a control or 2 processes or spot statistics on), or "
-        "any re-pricing on a used engine")
+        "any re-pricing on a used engine; wave 8: every pool run (and the single-process runs of the groups full / mpcv) uses a 2-dimensional "
+        "scripted process (value, draw-number tag) and every third of them repeats path values; 2 fixed probes with nearly collinear "
+        "controls {forward, forward + 2^-30 call}; 1 pricing on a real Black-Scholes LevyProcess with 2 workers (observation)")
 MODELLED = ["standard Engine.price, BOTH branches of the Monte-Carlo loop (engine.py:116-149): the single-process loop and the multi-process "
             "branch (pool.map_async + callback; which draw gets which iteration index is an oracle sigma, the list of delivered results is "
             "arbitrary), MCPath.process/discount, Product.__call__, MCStatistics.add with the spot statistics on or off, "
-            "MCStatistics.price/mc_stddev/get_variance as reported for n = 0 (price 0, mc_stddev raises AttributeError, get_variance nan), "
-            "n = 1 (the single number 0.0) and n >= 2, tools.mean/stddev/mc_stddev, ControlVariates.helper_compute_coefficients/"
+            "MCStatistics.price/mc_stddev/get_variance as reported for n = 0 (price and mc_stddev 0 per component, get_variance nan), "
+            "n = 1 (mc_stddev and get_variance 0 per component) and n >= 2 -- the repaired tools.stddev / tools.mc_stddev of /repo 380d7c7, tools.mean/stddev/mc_stddev, ControlVariates.helper_compute_coefficients/"
             "compute_coefficients: hand models Model/McStats.v, Model/McStdFull.v, Model/McCv.v, Model/McStdCv.v tied by vm_compute correspondence",
             "b* for ANY number of controls: the guard, else np.linalg.lstsq on the correlation matrix modelled by its specification written "
             "without square roots (Sigma b = Sigma_XY and diag(Sigma) b = Sigma w for some w: the solution of minimal norm on the "
@@ -45,9 +47,24 @@ MODELLED = ["standard Engine.price, BOTH branches of the Monte-Carlo loop (engin
             "The closed forms for one and two controls remain as a second, independent model (group cv)",
             "for EVERY case (no skip) the oracle checks var(adj) <= var(raw), price() = mean(adj) and that adj is uncorrelated with every "
             "control (the b-free form of the normal equations)",
-            "multi-process runs are real 2-process pathos pools on a scripted process whose path values come from a shared-memory counter; "
-            "the assignment sigma is OBSERVED through the spot statistics (a different code path than the payoff rows) and fed to the model; "
-            "the oracle checks that every simulated spot value is stored exactly once and that price / error are those of the path set",
+            "multi-process runs are real pathos pools on a SCRIPTED 2-dimensional process whose path values come from a shared-memory counter: "
+            "coordinate 0 is the value the payoff and the controls read, coordinate 1 the draw number k (wave 8, audit5a A5). The assignment "
+            "sigma is read from the TAG column of the spot statistics -- a quantity no payoff, control or statistic reads, so sigma is not "
+            "derived from a compared number; path values may repeat. The model then predicts payoff rows, control rows AND the spot value "
+            "column from sigma. The oracle requires the stored draw numbers to be 0..n-1 once each. The check is BROKEN when fewer than 3 pool "
+            "runs of a check run have a non-identity sigma (evidence: pool_runs_by_sigma)",
+            "what the pool tie does NOT cover: a real fixed-date process. There the hypothesis 'sigma permutes the draws' does not describe "
+            "the run (every chunk re-uses the same pre-drawn variates: F-C08-3, property C08); one such run is made and its multiplicities "
+            "recorded in the evidence (real_process_pool_probe), as an observation explained by that finding",
+            "mc_stddev() for fewer than two paths (audit5a D4, finding F-C07-6, FIXED in /repo 380d7c7): the model follows the repaired code (one 0 "
+            "per component for n = 0 and n = 1); the pre-repair behaviour survives only as mc_stddev2_reported_orig for the Example "
+            "C07_error_per_component_before_repair. The oracle requires, for n = 0 and n = 1 in every group (standard, sequences, full, pool), an error "
+            "vector with exactly d entries, all 0.0 (and get_variance 0.0 per component for n = 1); a fixed finding absorbs nothing: matches_known "
+            "returns False. The engine group is replayed with corr_seq2 (Model/McStdFull.v), because corr_seq of the shared Model/McStats.v still has "
+            "the pre-repair `[0]` for one row",
+            "least variance: the oracle computes, for every component with a regular Sigma_X, the exact minimum var Y - b.Sigma_XY (Fraction solve) "
+            "and the excess of the stored adjusted sample over it; excess > 1e-6 var Y with |det| >= 1e-9 prod diag is a violation, below that "
+            "conditioning it is recorded only (least_variance_excess, near_collinear_probe)",
             "the engine's statistics across pricings are state; np.empty is an oracle that may return the previous rows (the executable "
             "model recycles them)",
             "np.cov(bias=True), np.std(ddof=1), np.mean: modelled as the textbook sums; np.linalg.lstsq: by specification; existence of "
@@ -64,7 +81,15 @@ MODELLED = ["standard Engine.price, BOTH branches of the Monte-Carlo loop (engin
             "for every order), how the pool assigns draws to indices (oracle sigma, observed on every run)"]
 ASSUMPTIONS = ["the error is compared squared (Q has no square root): mc_stddev()**2 = var_unbiased/n",
                "multi-process: the pool evaluates simulating_one_path once per iteration index and hands every result to the callback "
-               "(hypotheses `its` covers 0..n-1, sigma permutes the draws; checked on every real pool run -- nb_of_processes 2, 3, None -- by the oracle)",
+               "(hypothesis `its` covers 0..n-1) and every simulated path is a NEW draw (hypothesis: sigma permutes the draws). Both are "
+               "discharged only on the harness's shared-counter scripted process, on real pools with nb_of_processes 2, 3, None, through a "
+               "draw-number tag. The second is FALSE for a real fixed-date process on a pool: chunks re-use the same pre-drawn variates "
+               "(known finding F-C08-3 of C08: 64 paths on 2 workers = 8 distinct paths 8 times each, mc_stddev() reported as for 64 independent "
+               "paths), so C07_multiprocess_same_statistics / C07_cv_multiprocess_same say nothing about such a run",
+               "'least variance' and 'the sample regression coefficient' are statements about the EXACT b of the specification (over Q). numpy's "
+               "lstsq uses rcond = k*eps on the rounded correlation matrix: for relative determinant below ~1e-9 it may drop a direction and keep "
+               "variance the exact b removes (probe {forward, forward + 2^-30 call}: see evidence); var(adj) <= var(raw) is enforced on every case",
+               "'same numbers' for permuted rows holds over Q; the floats are compared at 1e-9",
                "np.linalg.lstsq returns the minimal-norm least-squares solution (its documented specification) OF THE MATRIX IT IS GIVEN: for "
                "exactly collinear controls this is the model's b* only when the rounded correlation matrix is numerically rank deficient for "
                "rcond=None (cut-off eps*k); observed: always for n <= 40, not always for n of a few hundred -- lstsq then returns another "
@@ -93,38 +118,57 @@ THEOREM_NOTES = {
                                 "helper_compute_coefficients (guard -> 0, else lstsq); that numpy's lstsq meets its specification stays an assumption",
     "C07_cv_tables_any_order": "payoff and control tables are written by the same statistics.add(it, path_manager): one component of the payoff (ycol) and the "
                                "vector of controls (crow) as functions of the draw; indices beyond n excluded by hypothesis (IndexError)",
-    "C07_cv_multiprocess_same": "hypothesis: sigma permutes 0..n-1 (observed on every real run, not proved); conclusion for every b meeting the specification on "
+    "C07_cv_multiprocess_same": "CONDITIONAL: hypothesis sigma permutes 0..n-1 -- observed (draw-number tag) on every run of the shared-counter scripted process, "
+                                "not proved, and false for a real fixed-date process on a pool (F-C08-3); conclusion for every b meeting the specification on "
                                 "the permuted tables; C07_cv_multiprocess_same_b adds (guard not firing) that it equals the single-process b componentwise",
-    "C07_cv_code_b_any_k": "code_b = guard -> b = 0, else lstsq by specification; conclusion: var(adj) <= var Y always; without the guard least variance over all b' and uniqueness of b",
+    "C07_cv_code_b_any_k": "code_b = guard -> b = 0, else lstsq by specification; conclusion: var(adj) <= var Y always; without the guard least variance over all b' and uniqueness of b. "
+                           "The hypothesis code_b is inhabited for every sample (C07_code_b_exists_unique; C07_cv_code_b_unconditional is the composed form); exact b only",
     "C07_code_b_check_sound": "links the boolean the vm_compute correspondence evaluates (code_bb) to the Prop the theorems are about",
-    "C07_merge_any_order": "the value written at row it depends on it only (through sigma), so order / chunking / repeated delivery of results cannot matter; "
+    "C07_merge_any_order": "sigma is bookkeeping (mc_engine .. sigma = mc_engine (path o sigma) .. id); the content is independence of `its`: the value written at row it depends on it only (through sigma), so order / chunking / repeated delivery of results cannot matter; "
                            "indices beyond n are excluded by hypothesis (numpy raises IndexError); single-process loop = instance (Corollary single_process_instance in Proofs/C07_StdFull.v)",
-    "C07_multiprocess_same_statistics": "hypothesis: sigma permutes 0..n-1 (every draw to exactly one index) -- a property of the pool that is observed on every real run, not proved",
-    "C07_engine_small_n": "n = 0: None models 'no value' (AttributeError for mc_stddev, nan for get_variance); n = 1: the single number 0.0 whatever d",
+    "C07_multiprocess_same_statistics": "CONDITIONAL: hypothesis sigma permutes 0..n-1 (every simulated path a new draw, handed to exactly one index). Observed on every "
+                                        "pool run of the shared-counter scripted process through a draw-number tag that no compared quantity reads (>= 3 non-identity "
+                                        "sigma per check run or the check breaks); FALSE for a real fixed-date process (F-C08-3 of C08: the chunks re-use the pre-drawn "
+                                        "variates; recorded by real_process_pool_probe). The conclusion is C07_statistics_permutation_invariant transported; equal over Q",
+    "C07_error_one_per_component_any_n": "small: by cases on mc_stddev2_reported (repaired arms) + length of mc_var_repaired; holds for n = 0 and n = 1 too since 380d7c7",
+    "C07_error_per_component_before_repair": "Example, F-C07-6 fixed: pre-repair definition mc_stddev2_reported_orig (one number for d = 2 at n = 1, no value at n = 0) "
+                                             "against the current one on the same inputs",
+    "C07_lstsq_answer_exists_nondegenerate": "corollary of C07_lstsq_answer_exists in the form audit5a B10 asked for (any_degenerate = false -> exists b w, lstsq_spec)",
+    "C07_cv_code_b_unconditional": "C07_cv_code_b_any_k with its hypothesis discharged by C07_code_b_exists_unique (composition, no new mathematics). EXACT b only: "
+                                   "numpy's lstsq (rcond = k*eps) drops a direction on nearly collinear controls and then does not attain the least variance "
+                                   "(audit5a: 4.405 of 4.412 kept where the exact b leaves 0); var(adj) <= var(raw) still holds and is enforced by the oracle",
+    "C07_statistics_permutation_invariant": "elementary, over Q; float summation order is not modelled (harness: 1e-9)",
+    "C07_engine_small_n": "repaired tree: n = 0: mc_stddev 0 per component, get_variance None (nan); n = 1: both 0 per component. Row / price clauses are theorems; the "
+                          "mc_stddev / get_variance clauses are DEFINITIONAL (match arms, tied by the n = 0 / n = 1 cases of corr_full and corr_seq2)",
     "C07_get_variance_textbook": "model of the repaired get_variance (744849b)",
     "threshold": "repaired guard (fix-mc3 aaa3e1f): a control is degenerate when variance <= 1e-24 * mean(x^2); modelled as written (degenerate / any_degenerate), "
                  "so a changed guard breaks the vm_compute correspondence of the adjusted rows (cases are normalised by the "
                  "power-of-two notionals, the implementation runs on notionals 2^-24 ... 2^20); the oracle separately flags 'b = 0 although no "
                  "control is degenerate'. The old absolute guard min|Sigma_X| < 1e-12 also fired for tiny notionals and for two uncorrelated controls (F-C07-3, repaired)",
 }
-LEVEL_TEXT = ("Proof: 23 Coq theorems (closed under the global context): for every path function, payoff, df, notional, size and np.empty "
+LEVEL_TEXT = ("Proof: 26 Coq theorems + 7 Examples (closed under the global context; F-C07-6 -- mc_stddev() not per component for fewer than two "
+              "paths -- is fixed in /repo 380d7c7 and the model follows the repair): for every path function, payoff, df, notional, size and np.empty "
               "content the engine loop stores df*notional*payoff(path_i) for each path exactly once and price() is df*notional*mean per "
               "component; the same for the multi-process branch for every order/chunking of the delivered results and every assignment of "
-              "draws to indices, with the spot statistics holding the spot of the same path, and price/error equal to the single-process "
-              "ones when every draw is used once (permutation invariance); every pricing of a sequence on one engine holds exactly its own "
+              "draws to indices, with the spot statistics holding the spot of the same path, and price/error equal (over Q) to the single-process "
+              "ones IF every simulated path is a new draw used once (sigma permutes: a hypothesis, discharged only on the shared-counter scripted "
+              "process through a draw-number tag; false for a real fixed-date process on a pool, F-C08-3, where the chunks repeat the same paths); every pricing of a sequence on one engine holds exactly its own "
               "paths; mc_stddev()^2 is the unbiased variance of each component divided by the number of paths and get_variance() that "
-              "variance; n = 0 and n = 1 as reported; for every coefficient vector b the control-variate mean is mean Y - b.(mean X - price); "
+              "variance; the error has exactly one entry per payoff component for every number of paths, 0 per component for n = 0 and n = 1 (definitional clauses, tied by cases); for every coefficient vector b the control-variate mean is mean Y - b.(mean X - price); "
               "for ANY number of controls the normal equations are solvable, every solution b minimises the variance of Y - b'.(X - p') over "
-              "all b' (so var(adj) <= var Y), the minimal-norm solution the code's lstsq is specified to return EXISTS (no degenerate control) and is "
-              "unique, so the specification of the code's b* (guard, else lstsq) is met by exactly one vector for every sample; the one/two-"
+              "all b' (so var(adj) <= var Y; least variance is a property of the EXACT b: numpy's lstsq, rcond = k*eps, drops a direction when the "
+              "relative determinant of Sigma_X is below ~1e-9 and then keeps variance the exact b removes -- measured by the oracle, <= var Y enforced), the minimal-norm solution the code's lstsq is specified to return EXISTS (no degenerate control) and is "
+              "unique, so the specification of the code's b* (guard, else lstsq) is met by exactly one vector for every sample (lstsq branch inhabited "
+              "whenever the guard does not fire: C07_lstsq_answer_exists_nondegenerate; composed C07_cv_code_b_unconditional); the one/two-"
               "control closed forms solve the normal equations; with controls, payoff and control tables hold at each index the values of "
-              "one draw for every delivery order, and a multi-process run (rows permuted) has the same b*, control-variate price and "
+              "one draw for every delivery order, and (same hypothesis on the pool) a multi-process run (rows permuted) has the same b*, control-variate price and "
               "variance as the single-process run. Model tied to /repo by vm_compute replay of ~710 scripted Engine.price "
               "pricings incl. ~100 multi-pricing sequences on one engine, 24 real 2-process runs without and 25 real pool runs with "
               "1-4 controls for nb_of_processes = 2, 3, None (rows exact, statistics 1e-9, adjusted "
               "rows 1e-6 against the exactly solved specification for 1-4 controls incl. collinear sets).")
 LEVEL_NOTE = ("Trusted: Coq kernel + vm_compute; hand models Model/McStats.v, McStdFull.v, McCv.v, McStdCv.v (correspondence, not translation); numpy "
-              "mean/std/cov semantics; np.linalg.lstsq by its specification (minimal-norm least squares); the pool calls every index once.")
+              "mean/std/cov semantics; np.linalg.lstsq by its specification (minimal-norm least squares) on well-conditioned input; the pool calls every "
+              "index once and every call is a new draw (true of the scripted process only, see ASSUMPTIONS).")
 TECHNIQUE = ("Coq proof (loop invariant for all delivery orders, permutation invariance, bilinearity of the sample covariance over Q, Gram-Schmidt "
              "existence for an abstract semi-inner product (normal equations and minimal-norm certificate), uniqueness of the minimal-norm solution) + vm_compute correspondence with scripted processes and exact Fraction certificates")
 
@@ -220,6 +264,8 @@ def control_fun(c, d):
             v = (x * x / 8.0) * np.ones(d)
         elif t == "call":
             v = np.maximum(x - K - idx, 0.0)
+        elif t == "near":       # forward + 2^-30 call: nearly collinear with the forward (relative det of Sigma_X ~ 1e-18)
+            v = x * np.ones(d) + 2.0 ** -30 * np.maximum(x - K - idx, 0.0)
         else:
             v = np.maximum(K + idx - x, 0.0)
         return v if d > 1 else float(v[0])
@@ -234,6 +280,8 @@ def control_exact(c, x: Fraction, j):
         return x * x / 8
     if t == "call":
         return max(x - K - j, Fraction(0))
+    if t == "near":
+        return x + Fraction(1, 2 ** 30) * max(x - K - j, Fraction(0))
     return max(K + j - x, Fraction(0))
 
 
@@ -243,16 +291,21 @@ def _exact_controls(first, spec):
             for j in range(spec["d"])]     # [component][path][control]
 
 
-def run_sequence(specs, nproc=1):
+SMALL_N_WHAT = "mc_stddev() does not report one error per payoff component for fewer than two paths"
+
+
+def run_sequence(specs, nproc=1, tagged=False):
     """prices every spec of the list, in order, on ONE Engine instance (engine-level fields -- df, controls, prices -- are
     those of the first spec); returns one obs per pricing, taken right after it.  nproc = 1: the single-process loop;
     nproc = 2, 3, ... or None (Pool(processes=None) = one worker per CPU): the multi-process branch on a real pool, the
     scripted path values then come from a shared-memory counter (c07_mp.ScriptedProcessMP)"""
     from mcscript import ScriptedProcess, make_product, make_control_variates, WarningCatcher
-    from c07_mp import ScriptedProcessMP
+    from c07_mp import TaggedProcessMP, first_coordinate, split_tagged_spot
     from rpylib.montecarlo.standard.engine import Engine
     from rpylib.montecarlo.configuration import ConfigurationStandard
     first = specs[0]
+    tagged = tagged or nproc != 1
+    wrap = first_coordinate if tagged else (lambda f: f)
     ncv, d0 = first["ncv"], first["d"]
     df = Fraction(first["df"])
 
@@ -267,11 +320,12 @@ def run_sequence(specs, nproc=1):
         else:   # given prices on the scale of each control (its notional)
             pr = [[v * abs(c["notional"]) for v in row] for row, c in zip(first["prices_raw"], first["controls"])]
         prices = [p[0] for p in pr] if first["scalar_prices"] else [np.array(p) for p in pr]
-        cv = make_control_variates([control_fun(c, d0) for c in first["controls"]], prices,
+        cv = make_control_variates([wrap(control_fun(c, d0)) for c in first["controls"]], prices,
                                    notionals=[c["notional"] for c in first["controls"]])
     mp = nproc != 1
-    proc = (ScriptedProcessMP if mp else ScriptedProcess)([x for s in specs for x in s["paths"]], df=first["df"], dimension=1)
-    if mp:
+    values = [x for s in specs for x in s["paths"]]
+    proc = TaggedProcessMP(values, df=first["df"]) if tagged else ScriptedProcess(values, df=first["df"], dimension=1)
+    if tagged:
         proc.reset()
     eng = Engine(ConfigurationStandard(mc_paths=first["n"], nb_of_processes=nproc, seed=None if mp else 7, control_variates=cv,
                                        activate_spot_statistics=bool(first.get("spot_stats"))), proc)
@@ -284,19 +338,21 @@ def run_sequence(specs, nproc=1):
             fun = lambda x, strikes=strikes: np.maximum(x - strikes, 0.0)      # noqa
         else:
             fun = lambda x, k=spec["strikes"][0]: max(x - k, 0.0)              # noqa
-        product = make_product(notional=spec["notional"], dimension=spec["d"], fun=fun)
+        product = make_product(notional=spec["notional"], dimension=spec["d"], fun=wrap(fun))
         eng.configuration.mc_paths = spec["n"]
-        before = proc.drawn() if mp else proc.calls
+        before = proc.drawn() if tagged else proc.calls
         with WarningCatcher(), np.errstate(all="ignore"), warnings.catch_warnings():
             warnings.simplefilter("ignore")
             st = eng.price(product)
-            obs = {"calls": (proc.drawn() if mp else proc.calls) - before, "rows": np.array(st._payoff_statistics.stats),
+            obs = {"calls": (proc.drawn() if tagged else proc.calls) - before, "rows": np.array(st._payoff_statistics.stats),
                    "price_raw": np.atleast_1d(st.price(no_control_variates=True)).astype(float),
                    "err_raw": np.atleast_1d(st.mc_stddev(no_control_variates=True)).astype(float),
                    "price": np.atleast_1d(st.price()).astype(float), "err": np.atleast_1d(st.mc_stddev()).astype(float)}
             obs["variance_raw"] = np.atleast_1d(st.get_variance(no_control_variates=True)).astype(float)
             if first.get("spot_stats"):
                 obs["spot"] = np.array(st._spot_underlying_statistics.stats)         # (n, 1)
+                if tagged:          # (n, 2): column 0 the spot value, column 1 the draw-number tag (sigma)
+                    obs["spot"], obs["sigma_tag"] = split_tagged_spot(obs["spot"], spec["n"])
             if ncv:
                 obs["X"] = np.array(st._control_variates_statistics.stats)          # (n, ncv, d)
                 obs["adj"] = np.array(st._payoff_statistics_with_cv.stats)          # (n, d)
@@ -389,6 +445,15 @@ def oracle(spec, obs):
                 if d >= 2 and _close(rep * rep * d, e2, TOL9, sc * sc):
                     det["finding"] = "F-C07-1"
                 out.append(("mc_stddev() is not the unbiased sample standard deviation / sqrt(number of paths), per component", det))
+    if n == 1 and obs.get("err_raw") is not None:
+        rep = [float(v) for v in np.atleast_1d(obs["err_raw"])]
+        if len(rep) != d:       # F-C07-6 (fixed in /repo 380d7c7): no tag -- a fixed finding absorbs nothing
+            out.append((SMALL_N_WHAT, {"component_count": d, "reported_error": rep, "price": [float(v) for v in obs["price_raw"]]}))
+        elif any(v != 0.0 for v in rep):
+            out.append(("one path: mc_stddev() is not 0.0 per component", {"reported_error": rep}))
+        gv = [float(v) for v in np.atleast_1d(obs["variance_raw"])] if obs.get("variance_raw") is not None else None
+        if gv is not None and gv != [0.0] * d:
+            out.append(("one path: get_variance() is not 0.0 per payoff component", {"component_count": d, "reported": gv}))
     if "spot" in obs and len(got) == n:
         sp = [Fraction(float(v)) for v in obs["spot"][:, 0]] if obs["spot"].ndim == 2 and obs["spot"].shape[0] == n else None
         if sp != [Fraction(x) for x in spec["paths"]]:
@@ -444,8 +509,23 @@ def oracle(spec, obs):
                 diag = Fraction(1)
                 for a in range(ncv):
                     diag *= S[a][a]
-                well = abs(_det(S)) >= Fraction(1, 1000) * abs(diag)
+                det_s = _det(S)
+                well = abs(det_s) >= Fraction(1, 1000) * abs(diag)
                 b = _solve(S, sxy) if well else None
+                # LEAST variance is a theorem about the EXACT b (C07_cv_optimal_any_k).  With the exact minimum v_min = var Y - b.Sigma_XY
+                # (exact solve, regular Sigma_X) measure what the float lstsq leaves on the table: bounded by 1e-6 var Y whenever
+                # |det| >= 1e-9 prod diag (the range in which the adjusted rows are also replayed in Coq); below that numpy may drop a
+                # direction (rcond = k * eps on the correlation matrix) and the excess is only RECORDED (var(adj) <= var Y still enforced above)
+                if det_s != 0 and var_y > 0:
+                    b_ex = b if b is not None else _solve(S, sxy)
+                    v_min = var_y - sum(bk * c for bk, c in zip(b_ex, sxy))
+                    excess = (va - v_min) / var_y
+                    rel = abs(det_s) / abs(diag)
+                    spec.setdefault("_cv_excess", []).append((float(rel), float(excess)))
+                    if rel >= Fraction(1, 10 ** 9) and excess > Fraction(1, 10 ** 6):
+                        out.append(("control-variate adjusted sample does not have the least variance although Sigma_X is well conditioned "
+                                    "(|det| >= 1e-9 prod diag): b* is not the sample regression coefficient",
+                                    {"component": j, "var_adj": float(va), "least_var": float(v_min), "var_raw": float(var_y), "rel_det": float(rel)}))
             if not well or b is None:      # collinear / nearly collinear controls: b* is not unique, the rows are not compared with one particular solution
                 spec.setdefault("_cv_skipped", 0)
                 spec["_cv_skipped"] += 1
@@ -500,9 +580,41 @@ def _seq_payload(specs, k, **det):
 def _coq_case(spec, obs):
     d = spec["d"]
     erows = lst([lst([qlit(v) for v in r]) for r in obs["rows"]])
-    err2 = [float(e) ** 2 for e in obs["err_raw"]]            # n = 1: the code reports the single number 0.0 whatever d
+    err2 = [float(e) ** 2 for e in obs["err_raw"]]            # one number per component for every n (n = 1: zeros; F-C07-6 fixed)
     return (f"({lst([qlit(k) for k in spec['strikes']])}, {lst([qlit(x) for x in spec['paths']])}, {qlit(spec['df'])}, "
             f"{qlit(spec['notional'])}, {natlit(spec['n'])}, ({erows}, {lst([qlit(v) for v in obs['price_raw']])}, {lst([qlit(v) for v in err2])}))")
+
+
+def _bump_excess(res, spec):
+    for rel, ex in spec.get("_cv_excess", []):
+        res.bump("least_variance_excess (var(adj) - exact minimum) / var(raw), by conditioning of Sigma_X",
+                 ("rel det >= 1e-9" if rel >= 1e-9 else "rel det < 1e-9 (numpy may drop a direction)") + ": " +
+                 ("<= 1e-12" if ex <= 1e-12 else "<= 1e-6" if ex <= 1e-6 else "<= 1e-2" if ex <= 1e-2 else "> 1e-2"))
+
+
+def _near_collinear_probe(res):
+    """audit5a B10 on the real engine: controls {forward, forward + 2^-30 call K} and the payoff call K.  The exact regression
+    coefficient is (-2^30, 2^30) and leaves variance 0; Sigma_X on the correlation scale has relative determinant ~1e-18, numpy's
+    lstsq (rcond = k * eps) drops the direction and keeps the part of var(call) the forward does not explain.  Enforced: the
+    property's bound var(adj) <= var(raw) and price() = mean(adj) (oracle); recorded: how much is left."""
+    rng = random.Random(res.seed + 5)
+    for K in (2.0, 4.0):
+        spec = {"kind": "standard", "n": 50, "d": 1, "ncv": 2, "vector_form": False, "strikes": [K],
+                "paths": [rng.randrange(0, 65) / 8.0 for _ in range(50)], "df": 1.0, "notional": 1.0,
+                "controls": [{"type": "fwd", "K": K, "notional": 1.0}, {"type": "near", "K": K, "notional": 1.0}],
+                "price_mode": "arbitrary", "spot_stats": False, "scalar_prices": True, "prices_raw": [[3.0], [3.0]]}
+        obs = run(spec)
+        for what, det in oracle(spec, obs):
+            res.violation(what, _payload(spec, **det))
+        res.count(("near", json.dumps(_payload(spec), sort_keys=True)), nontrivial=True, kind="standard d=1 ncv=2 nearly collinear probe")
+        ys = [Fraction(float(v)) for v in obs["rows"][:, 0]]
+        ad = [Fraction(float(v)) for v in obs["adj"][:, 0]]
+        vy, va = _cov(ys, ys), _cov(ad, ad)
+        res.bump("near_collinear_probe {forward, forward + 2^-30 call}: var(adj)/var(raw) with numpy's b (exact b: 0)",
+                 "no variance in the sample" if vy == 0 else f"{float(va / vy):.3f}")
+        _bump_excess(res, spec)
+        if not spec.get("_cv_excess") or spec["_cv_excess"][0][0] >= 1e-9:
+            res.broke("near-collinear probe", f"the probe is not nearly collinear any more: {spec.get('_cv_excess')}")
 
 
 def _zero_paths(res):
@@ -512,14 +624,18 @@ def _zero_paths(res):
     try:
         obs = run(spec)
         res.bump("n=0", f"price() {obs['price_raw'].tolist()}, mc_stddev() {obs['err_raw'].tolist()}")
+        if obs["err_raw"].tolist() != [0.0]:
+            res.violation(SMALL_N_WHAT, _payload(spec, component_count=1, reported_error=obs["err_raw"].tolist()))
     except AttributeError as e:
         res.bump("n=0", f"mc_stddev() raises AttributeError: {e}")
+        res.violation(SMALL_N_WHAT, _payload(spec, component_count=1, exception=f"AttributeError: {e}"))
     res.count(("n0",), nontrivial=False, kind="standard n=0")
 
 
 def correspond(res):
     rng = random.Random(res.seed)
     _zero_paths(res)
+    _near_collinear_probe(res)
     n_items = 420 if res.tier == "quick" else 1200
     eng_cases, cv_cases, cvk_cases, low_k, all_k = [], [], [], 0, 0
     for i in range(n_items):
@@ -550,6 +666,7 @@ def correspond(res):
                 res.bump("Sigma_X_has_negative_entry", bool(spec.get("_sigma_neg")))
             if spec.get("_cv_skipped"):
                 res.bump("cv_components_skipped_ill_conditioned", spec["_cv_skipped"])
+            _bump_excess(res, spec)
             if ncv in (1, 2) and spec.get("_cv_checked", 0) == d and n >= 2:
                 # powers of two: rows / |notional|, controls and prices / |control notional| (exact; the regression is equivariant,
                 # so the model sees O(1) numbers while the implementation ran on the tiny / huge ones)
@@ -605,7 +722,7 @@ def correspond(res):
            "| None => false end end")
     sh = 40 if res.tier == "quick" else 60
     with ThreadPoolExecutor(3) as ex:
-        f_eng = ex.submit(parallel_coq_bad, PROP, "engine", HEADER, "list seq_case", "corr_seq tol", eng_cases, shard=sh, timeout=900, jobs=8)
+        f_eng = ex.submit(parallel_coq_bad, PROP, "engine", HEADER, "list seq_case", "corr_seq2 tol", eng_cases, shard=sh, timeout=900, jobs=8)
         f_cv = ex.submit(parallel_coq_bad, PROP, "cv", HEADER, ty, chk, cv_cases, shard=sh, timeout=900, jobs=6)
         f_cvk = ex.submit(parallel_coq_bad, PROP, "cvk", HEADER, "cvk_case", "corr_cvk tol6", cvk_cases, shard=sh, timeout=900, jobs=8) if cvk_cases else None
         bad, nsh = f_eng.result()
@@ -625,8 +742,15 @@ def correspond(res):
         res.case_ok += nsh
     if cvk_cases:
         _cvk_group(res, cvk_cases, cvk_result)
+    POOL_SIGMA[0] = POOL_SIGMA[1] = 0
     correspond_full(res, rng)
     correspond_mpcv(res, random.Random(res.seed + 77))
+    # audit5a A5: a pool tie that only ever saw sigma = identity has not exercised the permutation hypothesis
+    res.bump("pool_runs_by_sigma (tag column)", f"identity {POOL_SIGMA[0]}, non-identity {POOL_SIGMA[1]}")
+    if POOL_SIGMA[1] < 3:
+        res.broke("correspondence pool sigma", f"of {sum(POOL_SIGMA)} real pool runs only {POOL_SIGMA[1]} had a non-identity assignment of draws to "
+                                               "iteration indices: the multi-process tie would be the single-process tie (uneven sleeps in c07_mp no longer effective?)")
+    _real_process_pool_probe(res)
 
 
 def _cvk_group(res, cvk_cases, result):
@@ -638,6 +762,9 @@ def _cvk_group(res, cvk_cases, result):
     else:
         res.case_ok += nsh
 
+POOL_SIGMA = [0, 0]      # [identity, non-identity] over the real pool runs of this check run
+
+
 # ----------------------------------------------------------------------------- both branches of the loop, spot statistics, n = 0 / 1
 def gen_full(rng, tier, i):
     """one pricing on a fresh engine, no controls: nb_of_processes = 1 or 2 (real pathos pool), spot statistics on / off,
@@ -647,7 +774,9 @@ def gen_full(rng, tier, i):
     d = rng.choice([1, 1, 2, 3])
     return {"kind": "full", "nproc": nproc, "n": n, "d": d, "ncv": 0, "vector_form": d > 1 or rng.random() < 0.3,
             "strikes": [rng.randrange(0, 40) / 8.0 for _ in range(d)],
-            "paths": [v / 32.0 for v in rng.sample(range(0, 65 * 4), n)] if n <= 200 else [v / 64.0 for v in rng.sample(range(0, 65 * 8), n)],
+            # wave 8: sigma is read from the draw-number TAG, so the values need not be distinct: every third item repeats values
+            "paths": ([rng.randrange(0, 17) / 2.0 for _ in range(n)] if i % 3 == 2 else
+                      [v / 32.0 for v in rng.sample(range(0, 65 * 4), n)] if n <= 200 else [v / 64.0 for v in rng.sample(range(0, 65 * 8), n)]),
             "df": rng.choice([1.0, 0.5, 0.25, 0.75]), "notional": rng.choice([1.0, 2.0, 0.5, 8.0]),
             "controls": [], "price_mode": "arbitrary", "scalar_prices": True, "prices_raw": [],
             "spot_stats": True if nproc == 2 else ((i // 8) % 2 == 0 if i < 16 else rng.random() < 0.5)}
@@ -655,13 +784,12 @@ def gen_full(rng, tier, i):
 
 def run_full(spec):
     from mcscript import ScriptedProcess, make_product, WarningCatcher
-    from c07_mp import ScriptedProcessMP
+    from c07_mp import TaggedProcessMP, first_coordinate, split_tagged_spot
     from rpylib.montecarlo.standard.engine import Engine
     from rpylib.montecarlo.configuration import ConfigurationStandard
     mp = spec["nproc"] != 1
-    proc = (ScriptedProcessMP if mp else ScriptedProcess)(spec["paths"], df=spec["df"], dimension=1)
-    if mp:
-        proc.reset()
+    proc = TaggedProcessMP(spec["paths"], df=spec["df"])       # 2-d: (value, draw-number tag), also in the single-process loop
+    proc.reset()
     eng = Engine(ConfigurationStandard(mc_paths=spec["n"], nb_of_processes=spec["nproc"], seed=None if mp else 7,
                                        activate_spot_statistics=bool(spec["spot_stats"])), proc)
     strikes = np.array(spec["strikes"])
@@ -669,11 +797,11 @@ def run_full(spec):
         fun = lambda x: np.maximum(x - strikes, 0.0)      # noqa
     else:
         fun = lambda x, k=spec["strikes"][0]: max(x - k, 0.0)              # noqa
-    product = make_product(notional=spec["notional"], dimension=spec["d"], fun=fun)
+    product = make_product(notional=spec["notional"], dimension=spec["d"], fun=first_coordinate(fun))
     with WarningCatcher(), np.errstate(all="ignore"), warnings.catch_warnings():
         warnings.simplefilter("ignore")
         st = eng.price(product)
-        obs = {"calls": proc.drawn() if mp else proc.calls, "rows": np.array(st._payoff_statistics.stats),
+        obs = {"calls": proc.drawn(), "rows": np.array(st._payoff_statistics.stats),
                "price_raw": np.atleast_1d(st.price(no_control_variates=True)).astype(float)}
         obs["price"] = obs["price_raw"]
         try:
@@ -683,7 +811,10 @@ def run_full(spec):
             obs["err_raw"], obs["err_exc"] = None, str(e)
         obs["err"] = obs["err_raw"]
         obs["variance_raw"] = np.atleast_1d(st.get_variance(no_control_variates=True)).astype(float)
-        obs["spot"] = np.array(st._spot_underlying_statistics.stats) if spec["spot_stats"] else None
+        obs["spot"], obs["sigma_tag"] = None, None
+        if spec["spot_stats"]:
+            obs["spot_raw_shape"] = list(np.array(st._spot_underlying_statistics.stats).shape)
+            obs["spot"], obs["sigma_tag"] = split_tagged_spot(st._spot_underlying_statistics.stats, spec["n"])
         obs["spot_class"] = type(st._spot_underlying_statistics).__name__
     return obs
 
@@ -694,14 +825,18 @@ def oracle_full(spec, obs):
     n, d = spec["n"], spec["d"]
     vals = [Fraction(v) for v in spec["paths"]]
     if spec["spot_stats"]:
-        sp = obs["spot"]
-        if sp.shape != (n, 1):
-            return [("spot statistics on: the spot array is not (number of paths) x (spot dimension)", {"shape": list(sp.shape)})], None
+        sp, sigma = obs["spot"], obs["sigma_tag"]
+        if sp is None:
+            return [("spot statistics on: the spot array is not (number of paths) x (spot dimension)", {"shape": obs.get("spot_raw_shape")})], None
         seen = [Fraction(float(v)) for v in sp[:, 0]]
-        if sorted(seen) != sorted(vals):
-            return [("the simulated paths are not each used exactly once: the spot statistics do not hold every simulated spot value once",
-                     {"nb_of_processes": spec["nproc"], "stored_spots": [float(v) for v in seen][:12], "simulated": spec["paths"][:12]})], None
-        sigma = [vals.index(v) for v in seen]
+        # every draw 0..n-1 handed to exactly one iteration index: decided on the TAG column (no payoff reads it) ...
+        if sorted(sigma) != list(range(n)) or obs["calls"] != n:
+            return [("the simulated paths are not each used exactly once: the draw numbers stored with the spot statistics are not 0..n-1 once each",
+                     {"nb_of_processes": spec["nproc"], "simulated": obs["calls"], "stored_draw_numbers": sigma[:16]})], None
+        # ... and the spot VALUE stored at row it is the value of that draw (a compared quantity now, not the source of sigma)
+        if seen != [vals[k] for k in sigma]:
+            out.append(("spot statistics on: the spot value stored at an index is not the value of the path whose draw number is stored there",
+                        {"stored_spots": [float(v) for v in seen][:12], "draw_numbers": sigma[:12]}))
     else:
         if obs["spot_class"] != "NoStatistic":
             out.append(("spot statistics off but a spot array is kept", {}))
@@ -711,6 +846,11 @@ def oracle_full(spec, obs):
     if n == 0:
         if obs["price_raw"].shape != (d,) or any(v != 0.0 for v in obs["price_raw"]):
             out.append(("no path: price() is not 0 per component", {"reported": [float(v) for v in obs["price_raw"]]}))
+        if obs["err_raw"] is None:      # F-C07-6 (fixed in /repo 380d7c7): must not come back; no tag
+            out.append((SMALL_N_WHAT, {"component_count": d, "exception": "AttributeError: " + str(obs["err_exc"]),
+                                       "price": [float(v) for v in obs["price_raw"]]}))
+        elif len(obs["err_raw"]) != d or any(float(v) != 0.0 for v in obs["err_raw"]):
+            out.append((SMALL_N_WHAT, {"component_count": d, "reported_error": [float(v) for v in obs["err_raw"]]}))
         return out, sigma
     perm = dict(spec)
     perm["paths"] = [spec["paths"][k] for k in sigma]        # the rows in the order the pool assigned them
@@ -719,9 +859,7 @@ def oracle_full(spec, obs):
         out.append(("mc_stddev() raised although there are paths", {"exception": obs["err_exc"]}))
         o["err_raw"] = o["err"] = np.full(d, float("nan"))
     o.pop("spot")
-    out += oracle(perm, o)
-    if n == 1 and (list(np.atleast_1d(obs["err_raw"])) != [0.0] or list(obs["variance_raw"]) != [0.0]):
-        out.append(("one path: mc_stddev() / get_variance() is not the single number 0.0", {"err": [float(v) for v in np.atleast_1d(obs["err_raw"])]}))
+    out += oracle(perm, o)      # n = 1: the shape of the reported error is judged there (one 0.0 per component)
     return out, sigma
 
 
@@ -753,6 +891,7 @@ def correspond_full(res, rng):
                      f", get_variance() {obs['variance_raw'].tolist()}")
         if spec["nproc"] == 2 and sigma is not None and n >= 2:
             res.bump("pool_assignment_sigma", "identity" if sigma == list(range(n)) else "a non-trivial permutation")
+            POOL_SIGMA[sigma != list(range(n))] += 1
         for what, det in viol:
             res.violation(what, _payload(spec, **det))
         if sigma is not None:
@@ -782,7 +921,8 @@ def gen_mpcv(rng, tier, i):
     spec["n"] = rng.choice([3, 5, 8, 13, 24, 40] + ([120] if tier != "quick" else []))
     if spec["nproc"] is None and i % 2:
         spec["n"] = rng.choice([70, 90, 130])      # more than 4 * (number of CPUs) tasks: map_async then hands out chunks of >= 2 indices
-    spec["paths"] = [v / 32.0 for v in rng.sample(range(0, 65 * 4), spec["n"])]
+    spec["paths"] = ([rng.randrange(0, 33) / 4.0 for _ in range(spec["n"])] if i % 3 == 2 else      # wave 8: values may repeat (sigma from the tag)
+                     [v / 32.0 for v in rng.sample(range(0, 65 * 4), spec["n"])])
     spec["ncv"] = [1, 2, 3, 3, 4][i % 5]
     spec["controls"] = gen_controls(rng, spec["ncv"])
     spec["prices_raw"] = [[rng.randrange(0, 64) / 8.0 for _ in range(spec["d"])] for _ in range(spec["ncv"])]
@@ -792,19 +932,20 @@ def gen_mpcv(rng, tier, i):
 
 def run_mpcv(spec):
     """(violations, sigma, spec in row order, obs)"""
-    obs = run_sequence([spec], nproc=spec["nproc"])[0]
+    obs = run_sequence([spec], nproc=spec["nproc"], tagged=True)[0]
     n = spec["n"]
     vals = [Fraction(v) for v in spec["paths"]]
-    sp = obs["spot"]
-    if sp.shape != (n, 1):
-        return [("spot statistics on: the spot array is not (number of paths) x (spot dimension)", {"shape": list(sp.shape)})], None, None, obs
+    sp, sigma = obs["spot"], obs.get("sigma_tag")
+    if sp is None:
+        return [("spot statistics on: the spot array is not (number of paths) x (spot dimension)", {})], None, None, obs
     seen = [Fraction(float(v)) for v in sp[:, 0]]
-    if sorted(seen) != sorted(vals) or obs["calls"] != n:
-        return [("the simulated paths are not each used exactly once: the spot statistics do not hold every simulated spot value once",
-                 {"nb_of_processes": spec["nproc"], "simulated": obs["calls"], "stored_spots": [float(v) for v in seen][:12],
-                  "scripted": spec["paths"][:12]})], None, None, obs
-    sigma = [vals.index(v) for v in seen]
+    if sorted(sigma) != list(range(n)) or obs["calls"] != n:
+        return [("the simulated paths are not each used exactly once: the draw numbers stored with the spot statistics are not 0..n-1 once each",
+                 {"nb_of_processes": spec["nproc"], "simulated": obs["calls"], "stored_draw_numbers": sigma[:16]})], None, None, obs
     out = []
+    if seen != [vals[k] for k in sigma]:
+        out.append(("spot statistics on: the spot value stored at an index is not the value of the path whose draw number is stored there",
+                    {"stored_spots": [float(v) for v in seen][:12], "draw_numbers": sigma[:12]}))
     if spec["nproc"] == 1 and sigma != list(range(n)):
         out.append(("single-process loop: row i does not hold the i-th simulated path", {"sigma": sigma[:12]}))
     perm = dict(spec)
@@ -868,6 +1009,7 @@ def correspond_mpcv(res, rng):
             continue
         if spec["nproc"] != 1:
             res.bump("cv_pool_assignment_sigma", f"nb_of_processes={label}: " + ("identity" if sigma == list(range(n)) else "a non-trivial permutation"))
+            POOL_SIGMA[sigma != list(range(n))] += 1
         o = dict(obs)
         full_cases.append(_full_case(spec, o, sigma))
         for j in range(d):
@@ -895,6 +1037,37 @@ def correspond_mpcv(res, rng):
                                               f"variates, first: {full_cases[bad[0]][:1500]}")
     else:
         res.case_ok += nsh
+
+
+def _real_process_pool_probe(res):
+    """audit5a A5: the hypothesis `sigma permutes the draws` of C07_multiprocess_same_statistics / C07_cv_multiprocess_same is a
+    statement about SIMULATED PATHS.  On the scripted shared-counter process every worker call is a new draw, so it holds and is
+    checked.  On a REAL fixed-date process it does not describe the run: every chunk of map_async unpickles its own copy of the
+    pre-drawn Brownian increments (known finding F-C08-3 of property C08), so the pool's 64 `paths` are few distinct paths repeated
+    and mc_stddev() is reported as for 64 independent ones.  One such run is made here and its multiplicities RECORDED (observation:
+    the defect is C08's, not a C07 violation -- each stored row is still one call of simulate_one_path, used once)."""
+    from rpylib.montecarlo.standard.engine import Engine
+    from rpylib.montecarlo.configuration import ConfigurationStandard
+    from rpylib.process.levyprocess import LevyProcess
+    from rpylib.model.levymodel.mixed.blackscholes import BlackScholesModel, BlackScholesParameters
+    from mcscript import make_product, WarningCatcher
+    model = BlackScholesModel(spot=1.0, r=0.0, d=0.0, parameters=BlackScholesParameters(sigma=0.2))
+    eng = Engine(ConfigurationStandard(mc_paths=64, nb_of_processes=2, seed=None, activate_spot_statistics=True), LevyProcess(model))
+    with WarningCatcher(), np.errstate(all="ignore"), warnings.catch_warnings():
+        warnings.simplefilter("ignore")
+        st = eng.price(make_product(notional=1.0, dimension=1, fun=lambda x: max(x - 1.0, 0.0)))
+        sp = np.array(st._spot_underlying_statistics.stats)[:, 0]
+    _, cnt = np.unique(sp, return_counts=True)
+    res.count(("real-pool-probe",), nontrivial=False, kind="real Black-Scholes LevyProcess, nb_of_processes=2 (observation)")
+    res.bump("real_process_pool_probe (BlackScholes LevyProcess, 64 paths, 2 workers): distinct spot values",
+             f"{len(cnt)} distinct of {len(sp)}" + (" -- draws repeated across chunks: F-C08-3 (property C08), the permutation hypothesis does not "
+                                                   "describe this run" if len(cnt) < len(sp) else " -- all distinct"))
+
+
+def matches_known(v, known):
+    """C07 has no finding with status `known` (F-C07-1..6 are all fixed in /repo): nothing is absorbed.  F-C07-6 was absorbed here, by
+    re-running the real code on the replay's n / d / paths, until its repair 380d7c7."""
+    return False
 
 
 def search(res):
